@@ -4,14 +4,16 @@
    every layer / every value a source ever reported). *)
 From Coq Require Import List NArith ZArith Bool.
 From Dials Require Export Base.Outcome Base.Runes Reflect.Ty Reflect.Ptrify Reflect.Heap Copy.DeepCopy Copy.Canon
-  Copy.DeepCopySpec Stack.Overlay Stack.ComposeH.
+  Copy.DeepCopySpec Stack.Overlay Stack.ComposeH Stack.History.
 Import ListNotations.
 Open Scope N_scope.
 
 Inductive c02case :=
 | Stack2 (fs : fields) (H : heap) (n_in : N) (d : addr) (layers : list addr)
          (impl : outcome (hv * hv))       (* the same inputs stacked twice: both results *)
-| History (H : heap) (n_in : N) (versions : list hv).   (* every View() over a run with k updates *)
+| History (fs : fields) (H : heap) (n_in : N) (d : addr)
+          (evs : list (list addr))     (* per stacking: the addresses of the source values in force *)
+          (versions : list hv).        (* every View() over a run with k updates, oldest first *)
 
 Definition input_heap (H : heap) (n_in : N) : heap := filter (fun ao => fst ao <? n_in) H.
 
@@ -29,6 +31,15 @@ Fixpoint all_some {A} (l : list (option A)) : option (list A) :=
   | [] => Some []
   | Some x :: r => match all_some r with Some r' => Some (x :: r') | None => None end
   | None :: _ => None
+  end.
+
+Fixpoint versions_eqb (fuel : nat) (hm : heap) (vs : list version) (H : heap) (impl : list hv) : bool :=
+  match vs, impl with
+  | [], [] => true
+  | v :: vs', r :: impl' =>
+      canon_eqb (canon_of false fuel hm (HPtr (Some (v_root v)))) (canon_of false fuel H r) &&
+      versions_eqb fuel hm vs' H impl'
+  | _, _ => false
   end.
 
 Definition check (c : c02case) : N :=
@@ -60,10 +71,23 @@ Definition check (c : c02case) : N :=
       | Err _ => match m with RErr _ => 0 | _ => 1 end
       | Panic _ => match m with RPanic _ => 0 | _ => 1 end
       end
-  | History H n_in versions =>
-      let fuel := walk_fuel H HNilIface in
+  | History fs H n_in d evs versions =>
+      let hin := input_heap H n_in in
+      let fuel := walk_fuel H (HPtr (Some d)) in
+      let rk := compute_rk hin in
+      let guard_root := fun a => c03_guard_total hin n_in (rank_bound rk) (Nat.max (heap_depth hin) 1) rk (HPtr (Some a)) in
+      if negb (wf_heapb hin n_in && guard_root d && forallb (forallb guard_root) evs) then 1 else
       match all_some (map (reach_of fuel H) versions) with
-      | Some ls => if forallb (all_ge n_in) ls && pairwise_disjoint ls then 0 else 3
+      | Some ls =>
+          if forallb (all_ge n_in) ls && pairwise_disjoint ls then
+            (* replay the history in the model (Stack/History.v): every value the sources
+               ever supplied already lives in the shipped heap *)
+            match config_h fuel fs hin n_in d (map (mk_event []) evs) with
+            | Done ((hm, _), _, vs) =>
+                if versions_eqb fuel hm (rev vs) H versions then 0 else 1
+            | _ => 1
+            end
+          else 3
       | None => 3
       end
   end.
